@@ -765,6 +765,8 @@ def to_z3(v, t: T):
         if isinstance(v, str):
             return str_const(v)
     if isinstance(t, Ref):
+        if v is None and getattr(t, "null", None) is not None:
+            return t.null
         if isinstance(v, SRef):
             if v.t is not t and v.t.z3sort() != t.z3sort():
                 raise Unsupported(f"sort mismatch {v.t} vs {t}")
